@@ -93,7 +93,9 @@ pub enum Op {
     Validate { thread: u8, ps: u8, render: u8, schema: u8, srender: u8, permissive: bool },
     Format { thread: u8, ps: u8, width: u16, indent: u8 },
     Convert { thread: u8, kind: u8, ps: u8, schema: u8 },
-    CheckParse { thread: u8, kind: u8, ps: u8, render: u8, schema: u8, srender: u8, store: u8 },
+    CheckParse { thread: u8, kind: u8, ps: u8, render: u8, schema: u8, srender: u8, store: u8, #[serde(default)] req: Option<ReqDoc> },
+    /// partial-evaluation FFI (principal / resource possibly unknown) vs `Authorizer::is_authorized_partial`
+    Partial { thread: u8, ps: u8, render: u8, schema: Option<(u8, u8)>, validate_request: bool, store: u8, implicit: bool, req: ReqDoc, unknown: u8 },
     /// the real `cedar` binary over a simulated disk with file faults
     Cli { thread: u8, cli: crate::worlds::frontends_cli::CliOp },
 }
@@ -465,7 +467,14 @@ fn show(o: &Outcome) -> String {
 fn do_authorize(step: usize, ps: &PsDoc, render: u8, schema: Option<(u8, u8)>, validate_request: bool, store: &[Value], implicit: bool, req: &ReqDoc) -> JobResult {
     let mut out = jr();
     let call = auth_call_json(ps, render, schema, validate_request, store, implicit, req);
-    let ans = match ffi::is_authorized_json(call) {
+    // bit 4 of `render`: the call travels as a string (`*_json_str`), as the language bindings send it
+    let ans = if render & 16 != 0 {
+        out.counts.push(("route.json_str", 1));
+        ffi::is_authorized_json_str(&call.to_string()).and_then(|s| serde_json::from_str::<Value>(&s))
+    } else {
+        ffi::is_authorized_json(call)
+    };
+    let ans = match ans {
         Ok(a) => a,
         Err(e) => {
             out.violation = viol("ffi_rejects_call_shape", "is_authorized_json", step, "the call document deserialises".into(), e.to_string());
@@ -495,6 +504,126 @@ fn do_authorize(step: usize, ps: &PsDoc, render: u8, schema: Option<(u8, u8)>, v
             _ => "ffi_error_ids",
         };
         out.violation = viol(kind, &format!("stateless authorize render{}", render % 8 % 5), step, format!("API: {}", show(&want)), format!("FFI: {}", show(&got)));
+    }
+    out
+}
+
+/// comparable form of a partial-authorization answer: Err(()) = failure;
+/// Ok((decision, satisfied, errored, may be determining, must be determining, all residual ids, non-trivial residual ids))
+type POutcome = Result<(Option<bool>, BTreeSet<String>, BTreeSet<String>, BTreeSet<String>, BTreeSet<String>, BTreeSet<String>, BTreeSet<String>), ()>;
+
+#[allow(clippy::too_many_arguments)]
+fn api_partial(ps: &PsDoc, render: u8, schema: Option<(u8, u8)>, validate_request: bool, store: &[Value], implicit: bool, req: &ReqDoc, unknown: u8) -> POutcome {
+    let schema = match schema {
+        Some((i, r)) => Some(api_schema(i, r).map_err(|_| ())?),
+        None => None,
+    };
+    let mut b = Request::builder();
+    if unknown & 1 == 0 {
+        b = b.principal(EntityUid::from_json(uid_json(&req.p, req.uid_form)).map_err(|_| ())?);
+    }
+    let a = EntityUid::from_json(uid_json(&req.a, req.uid_form)).map_err(|_| ())?;
+    b = b.action(a.clone());
+    if unknown & 2 == 0 {
+        b = b.resource(EntityUid::from_json(uid_json(&req.r, req.uid_form)).map_err(|_| ())?);
+    }
+    let ctx = Context::from_json_value(req.ctx.clone(), schema.as_ref().map(|s| (s, &a))).map_err(|_| ())?;
+    b = b.context(ctx);
+    let entities = Entities::from_json_value(store_doc(store, implicit), schema.as_ref());
+    let policies = api_policy_set(ps, render);
+    let request = match (&schema, validate_request) {
+        (Some(s), true) => b.schema(s).build().map_err(|_| ()),
+        _ => Ok(b.build()),
+    };
+    let (Ok(request), Ok(entities), Ok(policies)) = (request, entities, policies) else { return Err(()) };
+    let resp = Authorizer::new().is_authorized_partial(&request, &policies, &entities);
+    // the FFI answer carries every residual as a JSON policy: a residual that has no JSON form is a failure there
+    if resp.all_residuals().any(|p| p.to_json().is_err()) {
+        return Err(());
+    }
+    Ok((
+        resp.decision().map(|d| d == Decision::Allow),
+        resp.definitely_satisfied().map(|p| raw(p.id())).collect(),
+        resp.definitely_errored().map(raw).collect(),
+        resp.may_be_determining().map(|p| raw(p.id())).collect(),
+        resp.must_be_determining().map(|p| raw(p.id())).collect(),
+        resp.all_residuals().map(|p| raw(p.id())).collect(),
+        resp.nontrivial_residuals().map(|p| raw(p.id())).collect(),
+    ))
+}
+
+fn ffi_poutcome(ans: &Value) -> Result<POutcome, String> {
+    match ans.get("type").and_then(|t| t.as_str()) {
+        Some("failure") => Ok(Err(())),
+        Some("residuals") => {
+            let r = ans.get("response").ok_or("no response")?;
+            let d = match r.get("decision") {
+                None | Some(Value::Null) => None,
+                Some(Value::String(s)) => Some(s == "allow"),
+                Some(o) => return Err(format!("odd decision {o}")),
+            };
+            let set = |k: &str| -> Result<BTreeSet<String>, String> { Ok(r.get(k).and_then(|x| x.as_array()).ok_or(format!("no {k}"))?.iter().filter_map(|x| x.as_str().map(String::from)).collect()) };
+            let residuals: BTreeSet<String> = r.get("residuals").and_then(|x| x.as_object()).ok_or("no residuals")?.keys().cloned().collect();
+            Ok(Ok((d, set("satisfied")?, set("errored")?, set("mayBeDetermining")?, set("mustBeDetermining")?, residuals, set("nontrivialResiduals")?)))
+        }
+        other => Err(format!("unexpected answer type {other:?}")),
+    }
+}
+
+#[allow(clippy::too_many_arguments)]
+fn do_partial(step: usize, ps: &PsDoc, render: u8, schema: Option<(u8, u8)>, validate_request: bool, store: &[Value], implicit: bool, req: &ReqDoc, unknown: u8) -> JobResult {
+    let mut out = jr();
+    let mut call = auth_call_json(ps, render, schema, validate_request, store, implicit, req);
+    if let Some(o) = call.as_object_mut() {
+        if unknown & 1 != 0 {
+            if unknown & 4 != 0 { o.insert("principal".into(), Value::Null); } else { o.remove("principal"); }
+        }
+        if unknown & 2 != 0 {
+            if unknown & 4 != 0 { o.insert("resource".into(), Value::Null); } else { o.remove("resource"); }
+        }
+    }
+    let ans = if render & 16 != 0 {
+        out.counts.push(("route.json_str", 1));
+        ffi::is_authorized_partial_json_str(&call.to_string()).and_then(|s| serde_json::from_str::<Value>(&s))
+    } else {
+        ffi::is_authorized_partial_json(call)
+    };
+    let ans = match ans {
+        Ok(a) => a,
+        Err(e) => {
+            out.violation = viol("ffi_rejects_call_shape", "is_authorized_partial_json", step, "the call document deserialises".into(), e.to_string());
+            return out;
+        }
+    };
+    let got = match ffi_poutcome(&ans) {
+        Ok(g) => g,
+        Err(e) => {
+            out.violation = viol("ffi_answer_shape", "is_authorized_partial_json", step, "a residuals or failure answer".into(), e);
+            return out;
+        }
+    };
+    let want = api_partial(ps, render, schema, validate_request, store, implicit, req, unknown);
+    out.events.push(format!("{step} partial u{} -> {:?}", unknown & 3, got));
+    out.counts.push(("evaluations", 1));
+    match &got {
+        Ok(g) => {
+            out.counts.push(("ffi_partial_success", 1));
+            if g.0.is_none() {
+                out.counts.push(("reach.partial_undecided", 1));
+            }
+            if !g.6.is_empty() {
+                out.counts.push(("reach.partial_nontrivial_residuals", 1));
+            }
+        }
+        Err(()) => out.counts.push(("designed_failures_observed", 1)),
+    }
+    if got != want {
+        let kind = match (&got, &want) {
+            (Ok(_), Err(_)) | (Err(_), Ok(_)) => "ffi_success_vs_failure",
+            (Ok(g), Ok(w)) if g.0 != w.0 => "ffi_decision",
+            _ => "ffi_partial_sets",
+        };
+        out.violation = viol(kind, &format!("partial authorize render{} unknown{}", render % 8 % 5, unknown & 3), step, format!("API: {want:?}"), format!("FFI: {got:?}"));
     }
     out
 }
@@ -613,7 +742,7 @@ fn do_stateful(step: usize, ps_name: &str, reg_ps: Option<(PsDoc, u8)>, schema_n
 fn do_validate(step: usize, ps: &PsDoc, render: u8, sidx: u8, srender: u8, permissive: bool) -> JobResult {
     let mut out = jr();
     let call = json!({"validationSettings": {"mode": if permissive { "permissive" } else { "strict" }}, "schema": schema_doc(sidx, srender), "policies": ps_doc(ps, render)});
-    let ans = match ffi::validate_json(call) {
+    let ans = match if render & 16 != 0 { ffi::validate_json_str(&call.to_string()).and_then(|s| serde_json::from_str::<Value>(&s)) } else { ffi::validate_json(call) } {
         Ok(a) => a,
         Err(e) => {
             out.violation = viol("ffi_rejects_call_shape", "validate_json", step, "the call document deserialises".into(), e.to_string());
@@ -692,7 +821,7 @@ fn do_format(step: usize, ps: &PsDoc, width: u16, indent: u8) -> JobResult {
         text.push_str(if k % 3 == 0 { "\n\n" } else { " " });
     }
     let call = json!({"policyText": text, "lineWidth": width, "indentWidth": indent});
-    let ans = match ffi::format_json(call) {
+    let ans = match if width % 3 == 0 { ffi::format_json_str(&call.to_string()).and_then(|s| serde_json::from_str::<Value>(&s)) } else { ffi::format_json(call) } {
         Ok(a) => a,
         Err(e) => {
             out.violation = viol("ffi_rejects_call_shape", "format_json", step, "the call document deserialises".into(), e.to_string());
@@ -721,7 +850,7 @@ fn do_convert(step: usize, kind: u8, ps: &PsDoc, sidx: u8) -> JobResult {
     let first_static = ps.statics.first().map(|x| x.1.clone()).unwrap_or_else(|| "permit(principal, action, resource);".into());
     let first_template = ps.templates.first().map(|x| x.1.clone()).unwrap_or_else(|| TEMPLATES[0].into());
     let ty = |a: &Value| a.get("type").and_then(|t| t.as_str()).map(String::from);
-    match kind % 7 {
+    match kind % 8 {
         0 => {
             // policy text -> JSON
             let Ok(p) = serde_json::from_value::<ffi::Policy>(Value::String(first_static.clone())) else { return out };
@@ -797,6 +926,26 @@ fn do_convert(step: usize, kind: u8, ps: &PsDoc, sidx: u8) -> JobResult {
                 out.violation = viol("ffi_conversion_differs", "schema_to_json", step, format!("{want:?}"), format!("{got:?}"));
             }
         }
+        7 => {
+            // Cedar schema text -> JSON with resolved types
+            let src = SCHEMAS[sidx as usize % 8];
+            let ans = serde_json::to_value(ffi::schema_to_json_with_resolved_types(src)).unwrap_or(Value::Null);
+            let got = if ty(&ans).as_deref() == Some("success") { ans.get("json").cloned() } else { None };
+            let want = cedar_policy::schema_str_to_json_with_resolved_types(src).ok().map(|(j, _)| j);
+            out.events.push(format!("{step} schema_to_json_with_resolved_types -> {}", got.is_some()));
+            if got != want {
+                out.violation = viol("ffi_conversion_differs", "schema_to_json_with_resolved_types", step, format!("{want:?}"), format!("{got:?}"));
+            }
+            // whatever it resolves to must still be the same schema: the resolved document is accepted
+            // by the JSON schema parser exactly when the text is accepted by the Cedar schema parser
+            if let Some(j) = &got {
+                let text_ok = Schema::from_cedarschema_str(src).is_ok();
+                let json_ok = Schema::from_json_value(j.clone()).is_ok();
+                if text_ok && !json_ok {
+                    out.violation = viol("ffi_conversion_differs", "schema_to_json_with_resolved_types: resolved document is not a schema", step, "a JSON schema".into(), format!("{j}"));
+                }
+            }
+        }
         _ => {
             // policy set text -> parts (compared after parsing each part)
             let text = ps.statics.iter().chain(ps.templates.iter()).map(|(_, t)| t.clone()).collect::<Vec<_>>().join("\n");
@@ -830,21 +979,58 @@ fn do_convert(step: usize, kind: u8, ps: &PsDoc, sidx: u8) -> JobResult {
     out
 }
 
-fn do_check_parse(step: usize, kind: u8, ps: &PsDoc, render: u8, sidx: u8, srender: u8, store: &[Value]) -> JobResult {
+fn do_check_parse(step: usize, kind: u8, ps: &PsDoc, render: u8, sidx: u8, srender: u8, store: &[Value], req: Option<&ReqDoc>) -> JobResult {
     let mut out = jr();
     out.counts.push(("evaluations", 1));
     let ok_of = |a: Result<Value, serde_json::Error>| -> Option<bool> { a.ok().and_then(|v| v.get("type").and_then(|t| t.as_str()).map(|t| t == "success")) };
-    let (name, got, want): (&str, Option<bool>, bool) = match kind % 4 {
-        0 => ("check_parse_policy_set", ok_of(ffi::check_parse_policy_set_json(ps_doc(ps, render))), api_policy_set(ps, render).is_ok()),
-        1 => ("check_parse_schema", ok_of(ffi::check_parse_schema_json(schema_doc(sidx, srender))), api_schema(sidx, srender).is_ok()),
+    // bit 4 of `render`: through the `*_json_str` entry point
+    let via_str = render & 16 != 0;
+    let strv = |r: Result<String, serde_json::Error>| r.and_then(|s| serde_json::from_str::<Value>(&s));
+    let default_req = ReqDoc { p: "User::\"u0\"".into(), a: "Action::\"view\"".into(), r: "Doc::\"d0\"".into(), ctx: json!({"n": 1}), uid_form: 0 };
+    let req = req.unwrap_or(&default_req);
+    let (name, got, want): (&str, Option<bool>, bool) = match kind % 6 {
+        0 => {
+            let doc = ps_doc(ps, render);
+            ("check_parse_policy_set", ok_of(if via_str { strv(ffi::check_parse_policy_set_json_str(&doc.to_string())) } else { ffi::check_parse_policy_set_json(doc) }), api_policy_set(ps, render).is_ok())
+        }
+        1 => {
+            let doc = schema_doc(sidx, srender);
+            ("check_parse_schema", ok_of(if via_str { strv(ffi::check_parse_schema_json_str(&doc.to_string())) } else { ffi::check_parse_schema_json(doc) }), api_schema(sidx, srender).is_ok())
+        }
         2 => {
             let s = api_schema(sidx, srender);
             let want = s.as_ref().is_ok_and(|s| Entities::from_json_value(Value::Array(store.to_vec()), Some(s)).is_ok());
-            ("check_parse_entities", ok_of(ffi::check_parse_entities_json(json!({"entities": store, "schema": schema_doc(sidx, srender)}))), want)
+            let doc = json!({"entities": store, "schema": schema_doc(sidx, srender)});
+            ("check_parse_entities", ok_of(if via_str { strv(ffi::check_parse_entities_json_str(&doc.to_string())) } else { ffi::check_parse_entities_json(doc) }), want)
         }
-        _ => {
+        3 => {
             let want = Entities::from_json_value(Value::Array(store.to_vec()), None).is_ok();
             ("check_parse_entities(no schema)", ok_of(ffi::check_parse_entities_json(json!({"entities": store}))), want)
+        }
+        4 => {
+            // context, with (schema, action) or without
+            let with_schema = render & 1 == 0;
+            let mut doc = json!({"context": req.ctx});
+            let want = if with_schema {
+                doc["schema"] = schema_doc(sidx, srender);
+                doc["action"] = uid_json(&req.a, req.uid_form);
+                match (api_schema(sidx, srender), EntityUid::from_json(uid_json(&req.a, req.uid_form))) {
+                    (Ok(s), Ok(a)) => Context::from_json_value(req.ctx.clone(), Some((&s, &a))).is_ok(),
+                    _ => false,
+                }
+            } else {
+                Context::from_json_value(req.ctx.clone(), None).is_ok()
+            };
+            ("check_parse_context", ok_of(if via_str { strv(ffi::check_parse_context_json_str(&doc.to_string())) } else { ffi::check_parse_context_json(doc) }), want)
+        }
+        _ => {
+            let doc = json!({"schema": schema_doc(sidx, srender), "principal": uid_json(&req.p, req.uid_form), "action": uid_json(&req.a, req.uid_form), "resource": uid_json(&req.r, req.uid_form)});
+            let uids = (EntityUid::from_json(uid_json(&req.p, req.uid_form)), EntityUid::from_json(uid_json(&req.a, req.uid_form)), EntityUid::from_json(uid_json(&req.r, req.uid_form)));
+            let want = match (api_schema(sidx, srender), uids) {
+                (Ok(s), (Ok(p), Ok(a), Ok(r))) => cedar_policy::validate_scope_variables(&p, &a, &r, &s).is_ok(),
+                _ => false,
+            };
+            ("check_parse_scope_variables", ok_of(ffi::check_parse_scope_variables_json(doc)), want)
         }
     };
     out.events.push(format!("{step} {name} -> {got:?}"));
@@ -892,7 +1078,7 @@ fn run(case: &Case, obs: &mut Obs) -> Option<Violation> {
         let pick_ps = |i: u8| case.psets.get(i as usize % case.psets.len().max(1)).cloned().unwrap_or_else(|| empty_ps.clone());
         let pick_store = |i: u8| case.stores.get(i as usize % case.stores.len().max(1)).cloned().unwrap_or_default();
         let t = match op {
-            Op::Authorize { thread, .. } | Op::PreparsePs { thread, .. } | Op::PreparseSchema { thread, .. } | Op::Stateful { thread, .. } | Op::Validate { thread, .. } | Op::Format { thread, .. } | Op::Convert { thread, .. } | Op::CheckParse { thread, .. } | Op::Cli { thread, .. } => *thread as usize % k,
+            Op::Authorize { thread, .. } | Op::PreparsePs { thread, .. } | Op::PreparseSchema { thread, .. } | Op::Stateful { thread, .. } | Op::Validate { thread, .. } | Op::Format { thread, .. } | Op::Convert { thread, .. } | Op::CheckParse { thread, .. } | Op::Partial { thread, .. } | Op::Cli { thread, .. } => *thread as usize % k,
         };
         threads_used.insert(t);
         obs.count("fault.thread_switch");
@@ -980,9 +1166,13 @@ fn run(case: &Case, obs: &mut Obs) -> Option<Violation> {
                 let p = pick_ps(ps);
                 callers[t].call(move || do_convert(step, kind, &p, schema))
             }
-            Op::CheckParse { kind, ps, render, schema, srender, store, .. } => {
+            Op::CheckParse { kind, ps, render, schema, srender, store, req, .. } => {
                 let (p, s) = (pick_ps(ps), pick_store(store));
-                callers[t].call(move || do_check_parse(step, kind, &p, render, schema, srender, &s))
+                callers[t].call(move || do_check_parse(step, kind, &p, render, schema, srender, &s, req.as_ref()))
+            }
+            Op::Partial { ps, render, schema, validate_request, store, implicit, req, unknown, .. } => {
+                let (p, s) = (pick_ps(ps), pick_store(store));
+                callers[t].call(move || do_partial(step, &p, render, schema, validate_request, &s, implicit, &req, unknown))
             }
             Op::Cli { cli, .. } => {
                 let Some((bin, shim)) = crate::worlds::frontends_cli::cli_available() else {
@@ -1129,7 +1319,7 @@ impl World for Frontends {
         let stores: Vec<Vec<Value>> = (0..rng.range(1, 3)).map(|_| crate::worlds::batched::gen_store(&mut rng)).collect();
         let nops = rng.range(8, 28);
         let cli_w = if std::env::var("VERIF_NO_CLI").is_ok() { 0 } else { 1 };
-        let w: Vec<u32> = vec![8, 7, 4, 12, 3, 2, 2, 2, cli_w];
+        let w: Vec<u32> = vec![8, 7, 4, 12, 3, 2, 2, 2, cli_w, 3];
         let mut ops = vec![];
         // approximate bookkeeping so that most stateful calls hit a registered name
         let mut reg_ps: Vec<Vec<u8>> = vec![vec![]; nthreads];
@@ -1150,10 +1340,21 @@ impl World for Frontends {
             let thread = sched.below(nthreads) as u8;
             let schema_pick = |rng: &mut Rng| -> u8 { *rng.pick(&[0u8, 0, 0, 1, 1, 2, 3]) };
             let op = match rng.weighted(&w) {
+                9 => Op::Partial {
+                    thread,
+                    ps: rng.below(psets.len()) as u8,
+                    render: rng.below(32) as u8,
+                    schema: if rng.pct(50) { Some((schema_pick(&mut rng), rng.below(2) as u8)) } else { None },
+                    validate_request: rng.pct(60),
+                    store: rng.below(stores.len()) as u8,
+                    implicit: rng.pct(30),
+                    req: if rng.pct(60) { gen_req_valid(&mut rng) } else { gen_req(&mut rng) },
+                    unknown: *rng.pick(&[0u8, 1, 2, 3, 5, 6, 7, 0]),
+                },
                 0 => Op::Authorize {
                     thread,
                     ps: rng.below(psets.len()) as u8,
-                    render: rng.below(16) as u8,
+                    render: rng.below(32) as u8,
                     schema: if rng.pct(60) { Some((schema_pick(&mut rng), rng.below(2) as u8)) } else { None },
                     validate_request: rng.pct(70),
                     store: rng.below(stores.len()) as u8,
@@ -1179,10 +1380,10 @@ impl World for Frontends {
                     implicit: rng.pct(30),
                     req: gen_req(&mut rng),
                 },
-                4 => Op::Validate { thread, ps: rng.below(psets.len()) as u8, render: rng.below(16) as u8, schema: schema_pick(&mut rng), srender: rng.below(2) as u8, permissive: rng.pct(30) },
+                4 => Op::Validate { thread, ps: rng.below(psets.len()) as u8, render: rng.below(32) as u8, schema: schema_pick(&mut rng), srender: rng.below(2) as u8, permissive: rng.pct(30) },
                 5 => Op::Format { thread, ps: rng.below(psets.len()) as u8, width: *rng.pick(&[20u16, 40, 80, 120]), indent: *rng.pick(&[0u8, 2, 4]) },
-                6 => Op::Convert { thread, kind: rng.below(7) as u8, ps: rng.below(psets.len()) as u8, schema: rng.below(8) as u8 },
-                7 => Op::CheckParse { thread, kind: rng.below(4) as u8, ps: rng.below(psets.len()) as u8, render: rng.below(16) as u8, schema: if rng.pct(50) { rng.below(8) as u8 } else { schema_pick(&mut rng) }, srender: rng.below(2) as u8, store: rng.below(stores.len()) as u8 },
+                6 => Op::Convert { thread, kind: rng.below(8) as u8, ps: rng.below(psets.len()) as u8, schema: rng.below(8) as u8 },
+                7 => Op::CheckParse { thread, kind: rng.below(6) as u8, ps: rng.below(psets.len()) as u8, render: rng.below(32) as u8, schema: if rng.pct(50) { rng.below(8) as u8 } else { schema_pick(&mut rng) }, srender: rng.below(2) as u8, store: rng.below(stores.len()) as u8, req: Some(if rng.pct(50) { gen_req_valid(&mut rng) } else { gen_req(&mut rng) }) },
                 _ => {
                     let mut fr = Rng::sub(seed ^ ops.len() as u64, "faults");
                     let kind = *fr.pick(&[0u8, 0, 0, 0, 1, 1, 1, 2, 3, 4, 5, 6, 6]);
@@ -1290,10 +1491,10 @@ impl World for Frontends {
         out
     }
     fn rule(&self) -> &'static str {
-        "cases = seeded histories (8-28 ops) over 1-3 parked caller threads (each with its own thread-local FFI caches and hash keys; the scheduler stream picks the caller of every op): stateless FFI authorization in every input shape (concatenated text | id->text map | id->JSON map | array | mixed; templates as text or JSON + links; schema in Cedar or JSON syntax or absent; validateRequest on/off; explicit or schema-implicit entity JSON), preparse_policy_set / preparse_schema with names from a pool of 3 and ~30% invalid documents, stateful authorization incl. names never registered on that thread, validate, format, conversions, check-parse, and the real cedar CLI over a faulty simulated disk (exit status, printed decision and --verbose reasons vs the API on the faulted bytes); evaluations = FFI answers compared with the Rust API on the same documents (or, for stateful calls, with the stateless FFI call for the modelled registered documents); non-trivial = run with >=1 re-registration over a live name, >=1 failed registration, >=2 threads used and >=1 stateful call answered from the cache; distinct by hash of the event trail"
+        "cases = seeded histories (8-28 ops) over 1-3 parked caller threads (each with its own thread-local FFI caches and hash keys; the scheduler stream picks the caller of every op): stateless FFI authorization in every input shape (concatenated text | id->text map | id->JSON map | array | mixed; templates as text or JSON + links; schema in Cedar or JSON syntax or absent; validateRequest on/off; explicit or schema-implicit entity JSON), preparse_policy_set / preparse_schema with names from a pool of 3 and ~30% invalid documents, stateful authorization incl. names never registered on that thread, validate, format, conversions (incl. schema_to_json_with_resolved_types), check-parse (policy set, schema, entities, context, scope variables), partial authorization with unknown principal / resource (decision, satisfied, errored, may/must be determining, residual ids vs Authorizer::is_authorized_partial), a quarter to a half of the calls travelling through the `*_json_str` string entry points, and the real cedar CLI over a faulty simulated disk (exit status, printed decision and --verbose reasons vs the API on the faulted bytes); evaluations = FFI answers compared with the Rust API on the same documents (or, for stateful calls, with the stateless FFI call for the modelled registered documents); non-trivial = run with >=1 re-registration over a live name, >=1 failed registration, >=2 threads used and >=1 stateful call answered from the cache; distinct by hash of the event trail"
     }
     fn real_components(&self) -> Vec<&'static str> {
-        vec!["the `cedar` CLI binary built from /repo/cedar-policy-cli, run as a subprocess (authorize, validate, translate-policy, translate-schema, check-parse) with an LD_PRELOAD getrandom shim that owns its hash order", "cedar_policy::ffi::{is_authorized_json, stateful_is_authorized, preparse_policy_set, preparse_schema, validate_json, format_json, check_parse_*_json, policy_to_json, policy_to_text, template_to_json, template_to_text, schema_to_text, schema_to_json, policy_set_text_to_parts}", "the Rust API as reference (PolicySet, Policy, Template, Schema, SchemaFragment, Entities, Context, Request, Authorizer, Validator, formatter)"]
+        vec!["the `cedar` CLI binary built from /repo/cedar-policy-cli, run as a subprocess (authorize, validate, translate-policy, translate-schema, check-parse) with an LD_PRELOAD getrandom shim that owns its hash order", "cedar_policy::ffi::{is_authorized_json, stateful_is_authorized, preparse_policy_set, preparse_schema, validate_json, format_json, check_parse_*_json, *_json_str, is_authorized_partial_json, check_parse_context_json, check_parse_scope_variables_json, schema_to_json_with_resolved_types, policy_to_json, policy_to_text, template_to_json, template_to_text, schema_to_text, schema_to_json, policy_set_text_to_parts}", "the Rust API as reference (PolicySet, Policy, Template, Schema, SchemaFragment, Entities, Context, Request, Authorizer, Validator, formatter)"]
     }
     fn simulated_components(&self) -> Vec<&'static str> {
         vec!["caller threads: real OS threads, parked; the simulator decides who executes the next call (exactly one runnable)", "per-thread model of the registration cache (name -> last successfully registered document)", "hash-map iteration order per thread (getrandom seam)", "disk: documents written to a per-op directory, damaged between write and read (absent, torn, bit-flipped, swapped, emptied, garbage appended)"]
@@ -1307,7 +1508,7 @@ impl World for Frontends {
         ]
     }
     fn reach_probes(&self) -> Vec<&'static str> {
-        vec!["reach.reregistration_over_live_name", "reach.failed_reregistration_over_live_name", "reach.stateful_answered_from_cache", "reach.stateful_unregistered_name", "reach.validation_errors_reported", "reach.validation_warnings_without_errors"]
+        vec!["reach.reregistration_over_live_name", "reach.failed_reregistration_over_live_name", "reach.stateful_answered_from_cache", "reach.stateful_unregistered_name", "reach.validation_errors_reported", "reach.validation_warnings_without_errors", "reach.partial_undecided", "reach.partial_nontrivial_residuals", "route.json_str"]
     }
 }
 
@@ -1325,7 +1526,7 @@ pub fn warm_up() {
     let _ = do_authorize(0, &ps, 1, Some((0, 0)), true, &store, false, &req);
     let _ = do_validate(0, &ps, 1, 0, 0, false);
     let _ = do_format(0, &ps, 80, 2);
-    for k in 0..7 {
+    for k in 0..8 {
         let _ = do_convert(0, k, &ps, 0);
     }
 }
